@@ -7,13 +7,19 @@
 (*        difference is reported as INFO (C20 only requires invertibility).*)
 (*  rct : RCT forward then inverse on component arrays.                    *)
 (*  t1  : EBCOT block encode (EncodeLayered, any of the 64 styles) then    *)
-(*        decode with the reported pass lengths; block identity.           *)
+(*        decode with the reported pass lengths; block identity.  The      *)
+(*        encoder's bytes are also decoded by the Annex D reference        *)
+(*        decoder of module T1 (small blocks); C20 only requires the       *)
+(*        library's coder to invert itself, so disagreement is counted and *)
+(*        reported as INFO: agree / differ under the vertically-causal     *)
+(*        style (which the library declares but does not implement) /      *)
+(*        differ otherwise.                                                *)
 (***************************************************************************)
-EXTENDS Dwt53, Json
+EXTENDS Dwt53, T1, Json
 CONSTANT TraceFile
 Tr == ndJsonDeserialize(TraceFile)
-VARIABLES l, nacc, ninfo
-tvars == <<l, nacc, ninfo>>
+VARIABLES l, nacc, ninfo, t1c
+tvars == <<l, nacc, ninfo, t1c>>
 E == Tr[l]
 
 DwtReason == IF E.inv # E.src THEN "inverse 5/3 does not undo forward" ELSE "ok"
@@ -25,6 +31,10 @@ RctReason ==
 T1Reason ==
   IF E.err # "" THEN "block coder failed"
   ELSE IF E.out # E.src THEN "decoded block differs from encoded block" ELSE "ok"
+\* the encoder's bytes read by the Annex D reference decoder (module T1) with the segment lengths the encoder reports
+T1G == [w |-> E.w, h |-> E.h, orient |-> E.orient, style |-> E.style]
+T1Conforms == ~E.ref \/ E.passes = 0 \/
+              LET d == DecodeBlock(T1G, (E.passes + 2) \div 3, SegmentsOf(E.style, E.code, E.rates)) IN d.ok /\ d.val = E.src
 \* style bits: 1 bypass(LAZY) 2 reset 4 termall 8 vcausal 16 pterm 32 segsym
 T1Disc == IF E.style % 2 = 1 /\ (E.style \div 4) % 2 = 0 THEN "lazy-without-termall" ELSE "-"
 
@@ -35,9 +45,15 @@ Descr == CASE E.ev = "dwt" -> ToString([w |-> E.w, h |-> E.h, levels |-> E.level
            [] E.ev = "t1" -> ToString([w |-> E.w, h |-> E.h, orient |-> E.orient, style |-> E.style, bits |-> E.bits]) \o " err=" \o E.err
            [] OTHER -> ""
 
-Init == l = 1 /\ nacc = 0 /\ ninfo = 0
+Init == l = 1 /\ nacc = 0 /\ ninfo = 0 /\ t1c = [agree |-> 0, vsc |-> 0, other |-> 0]
 Step ==
   /\ l <= Len(Tr) /\ l' = l + 1
+  /\ IF E.ev = "t1" /\ E.ref /\ E.passes > 0
+     THEN LET c == T1Conforms IN
+          /\ t1c' = [t1c EXCEPT !.agree = @ + (IF c THEN 1 ELSE 0), !.vsc = @ + (IF ~c /\ HasStyle(E.style, 8) THEN 1 ELSE 0),
+                                 !.other = @ + (IF ~c /\ ~HasStyle(E.style, 8) THEN 1 ELSE 0)]
+          /\ IF c \/ HasStyle(E.style, 8) THEN TRUE ELSE PrintT("@@INFO|T1 bytes not decodable by the Annex D reference decoder: " \o Descr)
+     ELSE UNCHANGED t1c
   /\ IF E.ev \notin {"dwt", "rct", "t1"} THEN UNCHANGED <<nacc, ninfo>>
      ELSE LET r == Reason IN
           IF r = "ok"
@@ -46,6 +62,8 @@ Step ==
                   THEN PrintT("@@INFO|forward 5/3 differs from T.800 Annex F lifting: " \o Descr) /\ ninfo' = ninfo + 1
                   ELSE UNCHANGED ninfo
           ELSE PrintT("@@REJECT|" \o ToString(E.scn) \o "|" \o ToString(E.k) \o "|" \o Key \o r \o Disc \o "|" \o Descr) /\ UNCHANGED <<nacc, ninfo>>
-Finish == l = Len(Tr) + 1 /\ PrintT("@@ACCEPT|" \o ToString(nacc)) /\ PrintT("@@DONE|" \o ToString(Len(Tr))) /\ l' = l + 1 /\ UNCHANGED <<nacc, ninfo>>
+Finish == /\ l = Len(Tr) + 1 /\ PrintT("@@ACCEPT|" \o ToString(nacc)) /\ PrintT("@@DONE|" \o ToString(Len(Tr)))
+          /\ PrintT("@@INFO|t1ref agree=" \o ToString(t1c.agree) \o " vsc=" \o ToString(t1c.vsc) \o " other=" \o ToString(t1c.other))
+          /\ l' = l + 1 /\ UNCHANGED <<nacc, ninfo, t1c>>
 TraceSpec == Init /\ [][Step \/ Finish]_tvars
 =============================================================================
